@@ -1,5 +1,8 @@
 (* Correspondence entry point for C16.
-   case = VTup [VInt op; VList data; VInt numSlices; seed; params; streams; exps; logs; tag]
+   case = VTup [VInt op; VList data; layout; seed; params; streams; exps; logs; tag]
+     layout = VInt numSlices                 the dataset is parallelize(data, numSlices)
+            | VTup [_; _; VList partitions]  the dataset is some other parent (union, mapPartitions(list), cached ...)
+                                             whose partitions are given; sampling only sees the partitions
      op 0 sample        params = VTup [VBool withReplacement; VFloat fraction; _]
      op 1 sampleByKey   params = VTup [VBool withReplacement; VList [VTup [key; VFloat fraction]]]
      op 2 takeSample    params = VTup [VBool withReplacement; VInt num]
@@ -95,16 +98,25 @@ Definition enc_list (O : oracle) (g0 : gstate) (r : res (list val * gstate)) : v
   | Ok (l, g) => VTup [VList l; gsig O g0 g]
   end.
 
+Definition dec_layout (data : list val) (layout : val) : option (list (list val)) :=
+  match layout with
+  | VInt nsl => Some (parallelize val data nsl)
+  | VTup [_; _; VList ps] => as_parts ps
+  | _ => None
+  end.
+
 Definition run (c : val) : val :=
   match c with
-  | VTup [VInt op; VList data; VInt nsl; vseed; params; VList vstreams; VList vexps; VList vlogs; _] =>
+  | VTup [VInt op; VList data; layout; vseed; params; VList vstreams; VList vexps; VList vlogs; _] =>
+    match dec_layout data layout with
+    | None => VBad
+    | Some parts =>
       match dec_seed vseed, dec_list dec_stream vstreams, dec_list dec_pair vexps, dec_list dec_pair vlogs with
       | Some seed, Some table, Some exps, Some logs =>
           let O := oracle_of table in
           let g0 := mkG None (find_gen g_key table) in
           let fexp := table_fun exps in
           let flog := table_fun logs in
-          let parts := parallelize val data nsl in
           match op, params with
           | 0, VTup [VBool wr; VFloat f; _] =>
               let s := if wr then SPois val (Prim2SF f) else SBern val (Prim2SF f) in
@@ -127,5 +139,6 @@ Definition run (c : val) : val :=
           end
       | _, _, _, _ => VBad
       end
+    end
   | _ => VBad
   end.
